@@ -49,6 +49,12 @@ def gen_rich_rule(rng):
                                            rng.randrange(1, 3)))
     if rng.random() < 0.1:
         spec["wkst"] = rng.randrange(0, 7)
+    if rng.random() < 0.05 and spec["freq"] <= 2:
+        # an explicitly EMPTY BY-part is legal: it installs no filter and
+        # switches off the default the constructor would derive from dtstart
+        spec.pop("bymonthday", None)
+        spec.pop("byweekday", None)
+        spec[rng.choice(["bymonthday", "byweekday", "bymonth"])] = []
     r = rng.random()
     if r < 0.08:
         # a rule that runs into datetime.MAXYEAR before COUNT is reached:
@@ -345,6 +351,15 @@ def execute(cls, scenario, ctx):
                 if name == "dtstart":
                     kw = {name: RL.dt(val)}
                 new = twins[t].replace(**kw)
+                if (len(L2) + len(name)) % 3 == 0:
+                    # count() asked of the derived rule before anything has
+                    # walked it
+                    n0 = new.count()
+                    if n0 != len(L2):
+                        ctx.violation("C12.replace_wrong",
+                                      dict(twin=t, name=name, value=val,
+                                           count_before_listing=n0,
+                                           want=len(L2)))
                 got = list(new)
                 with K.mute():
                     ctx.checks += 1
